@@ -192,7 +192,7 @@ import cubed, cubed.array_api as xp
 d = tempfile.mkdtemp(prefix="pyvc-replay-")
 try:
     spec = cubed.Spec(work_dir=d, allowed_mem="500MB", reserved_mem="1MB")
-    x = xp.asarray(np.arange(6.0), chunks=2, spec=spec)
+    x = xp.asarray(np.arange(6.0), chunks=6, spec=spec)  # one chunk, like the coerced NumPy argument
     n = np.ones(6)
     args = (n, x) if {cfg['numpy_at']} == 0 else (x, n)
     try:
